@@ -38,7 +38,7 @@ def check(pid, level, text, note, technique, ref, thorough=True):
 
 check(
     "C17", "exploration",
-    "Seeded search over simulated fork-pool schedules: real run_sampled_sims / Ensemble.run_sims code runs on N simulated worker processes that inherit the parent's RNG state, a seeded scheduler decides task->worker assignment and completion order, BadInitialization retry faults are injected; oracles compare per-sample perturbation vectors and raw draw streams, source digests, zero-uncertainty equality. Sampling, not proof: the schedule space is sampled, every violation is a minimised replayable tape.",
+    "Seeded search over simulated fork-pool schedules: real run_sampled_sims / Ensemble.run_sims code runs on N simulated worker processes that inherit the parent's RNG state, a seeded scheduler decides task->worker assignment and completion order, BadInitialization retry faults are injected; oracles compare per-sample perturbation vectors (whole and component-wise) and raw draw streams, source digests, zero-uncertainty equality. The schedule space is sampled; for tiny pools (2-4 samples on 2-3 workers) ALL task assignments and completion orders are enumerated; every violation is a minimised replayable tape. The simulated pool is cross-checked against the real fork pools on every run of the check.",
     "Trusts the SimPool/SimManager/entropy stubs (fork = copy of RNG state at pool creation, tasks isolated by pickling) -- cross-checked against the real pools in the thorough tier; trusts numpy's generators.",
     "deterministic simulation: simulated fork pool + seeded scheduler + retry fault injection",
     "DESIGN.md 2.2, 4 (C17)",
@@ -60,7 +60,7 @@ check(
 )
 check(
     "C15", "fault_enumeration",
-    "Real calibrate / optimize / reconcile run under a virtual clock (per-evaluation cost, jumps, stalls; time budget reached in microseconds) and a seeded optimiser path; each problem is executed fault-free and then once per crash point k=1..N with an exception injected at the k-th simulation (N = simulations of the fault-free execution; all k enumerated up to a cap), plus BadInitialization / MemoryError / KeyboardInterrupt at sampled k. Oracles: deep digests of caller parset / progset / instructions / settings / data on every exit path; objective values captured at the seam equal a reference re-implementation of the documented objective evaluated on the same model; independent re-simulation of the returned point is no worse than the start, keeps hard targets and bounds, total-spend constraint holds.",
+    "Real calibrate / optimize / reconcile run under a virtual clock (per-evaluation cost, jumps, stalls; time budget reached in microseconds) and a seeded optimiser path; each problem is executed fault-free and then once per crash point k=1..N with an exception injected at the k-th simulation (N = simulations of the fault-free execution; all k enumerated up to a cap), plus BadInitialization / MemoryError / KeyboardInterrupt at sampled k, FailedConstraint at the j-th SLSQP projection and an unpickling failure at the j-th model copy. Problems cover y-factor / meta-factor / transfer adjustables, spending adjustments with absolute and relative bounds, spending packages, total-spend constraints, minimise / maximise / at-most / at-least / increase-by / decrease-by / cascade-stage measurables over single years and ranges with and without population selection; the documented meaning of every measurable class is also probed directly on the baseline model. Oracles: deep digests of caller parset / progset / instructions / settings / data on every exit path; objective values captured at the seam equal a reference re-implementation of the documented objective evaluated on the same model; independent re-simulation of the returned point is no worse than the start, keeps hard targets and bounds, total-spend constraint holds.",
     "Trusts the SimClock and simulated-entropy stubs, the reference objective written from the docstrings, and sciris.asd (real third-party code). Value oracles are applied to fault-free executions only; side-effect oracles on every exit path.",
     "deterministic simulation: virtual clock + seeded optimiser + enumerated crash points at the k-th evaluation",
     "DESIGN.md 2.3, 2.5, 4 (C15)",
